@@ -120,7 +120,7 @@ def _run_one(args):
             E.DEADLINE[0] = None
         r.setdefault("queries", 0)
         r["queries"] = max(r["queries"], E.STATS.checks)
-        r["solver_s"] = round(E.STATS.solver_s, 3)
+        r["solver_s"] = max(r.get("solver_s", 0), round(E.STATS.solver_s, 3))
     except ObligationTimeout:
         from pysym import engine as E
 
